@@ -131,7 +131,17 @@ fn collect(dir: &Path, base: &Path, files: &mut Vec<(String, Vec<u8>)>, dirs: &m
 
 /// Runs the shell on the real OS with the scratch directory as its working
 /// directory; the scratch directory is removed afterwards.
+///
+/// A wall-clock timeout is reported only if it reproduces: on a heavily loaded
+/// machine a run can be starved past its limit (observed once at load 60+),
+/// and a hang that does not happen again cannot be replayed either, so the
+/// run is repeated once before `timed_out` is reported.
 pub fn run_real(cfg: &RealCfg) -> RealResult {
+    let first = run_real_once(cfg);
+    if first.timed_out { run_real_once(cfg) } else { first }
+}
+
+fn run_real_once(cfg: &RealCfg) -> RealResult {
     let n = COUNTER.fetch_add(1, std::sync::atomic::Ordering::SeqCst);
     let root = scratch_root().join(format!("{}-{}", std::process::id(), n));
     let _ = std::fs::remove_dir_all(&root);
